@@ -1,5 +1,6 @@
 """C13 - writing then reading a .gro file returns the same system."""
 import os
+import re
 from decimal import Decimal
 
 import numpy as np
@@ -46,7 +47,7 @@ def oracle_roundtrip(conf, recs):
     n = len(recs)
     if natoms != n or len(atoms) != n:
         bad.append("number of records %d/%d instead of %d" % (natoms, len(atoms), n))
-    d = gc.effective_d(conf)
+    raw_lines = text.split("\n")[2:2 + n]
     for i, (rec, a) in enumerate(zip(recs, atoms)):
         if len(a) != len(rec):
             bad.append("record %d: %d fields instead of %d" % (i, len(a), len(rec)))
@@ -59,8 +60,23 @@ def oracle_roundtrip(conf, recs):
                     bad.append("record %d: number %d read as %d" % (i, rec[k], a[k]))
             elif not (0 <= a[k] < 100000):
                 bad.append("record %d: number %d not wrapped into five columns (%d)" % (i, rec[k], a[k]))
+        # "within half a unit of their last written decimal": the decimals actually written, read off the
+        # file by cutting the part after column 20 into as many equal fields as the record has numbers
+        written = []
+        if i < len(raw_lines):
+            nf = len(rec) - 4
+            part = raw_lines[i][20:]
+            if nf and len(part) % nf == 0:
+                fw = len(part) // nf
+                for j in range(nf):
+                    m = re.fullmatch(r" *-?\d+\.(\d+)", part[j * fw:(j + 1) * fw])
+                    if m:
+                        written.append(m.group(1))
         for k in range(4, len(rec)):
-            dd = d if k < 7 else d + 1
+            if k - 4 >= len(written):
+                bad.append("record %d: field %d is not written as a fixed-point number" % (i, k))
+                continue
+            dd = len(written[k - 4])
             tol = Decimal(5).scaleb(-dd - 1) + abs(Decimal(rec[k])) * Decimal(2) ** -51
             if abs(Decimal(float(a[k])) - Decimal(rec[k])) > tol:
                 bad.append("record %d field %d: %r read as %r (more than half a unit of decimal %d)"
